@@ -61,7 +61,8 @@ class MessageContent(Writeable):
         if ct_hdr is None:
             return False
         else:
-            return ct_hdr.content_type == 'message/rfc822'
+            return ct_hdr.content_type == 'message/rfc822' \
+                and self.body.has_nested
 
     @property
     def json(self) -> Mapping[str, Any]:
@@ -108,12 +109,12 @@ class MessageContent(Writeable):
         return cls._parse(data, view, lines)
 
     @classmethod
-    def _parse(cls, data: bytes, view: memoryview, lines: _Lines) \
-            -> MessageContent:
+    def _parse(cls, data: bytes, view: memoryview, lines: _Lines,
+               depth: int = 0) -> MessageContent:
         header_lines, body_lines = cls._split_lines(data, lines)
         header = MessageHeader._parse(data, view, header_lines)
         content_type = header.parsed.content_type
-        body = MessageBody._parse(data, view, body_lines, content_type)
+        body = MessageBody._parse(data, view, body_lines, content_type, depth)
         return cls(data, header, body)
 
     @classmethod
@@ -297,6 +298,9 @@ class MessageBody(Writeable):
 
     __slots__ = ['_raw', '_lines', '_nested', 'content_type']
 
+    #: The deepest level of nested sub-parts that is parsed.
+    _max_depth = 100
+
     def __init__(self, data: bytes, lines: _Lines,
                  content_type: ContentTypeHeader,
                  nested: Sequence[MessageContent]) -> None:
@@ -361,17 +365,22 @@ class MessageBody(Writeable):
 
     @classmethod
     def _parse(cls, data: bytes, view: memoryview, lines: _Lines,
-               content_type: ContentTypeHeader | None) -> MessageBody:
+               content_type: ContentTypeHeader | None,
+               depth: int = 0) -> MessageBody:
         if content_type is None:
             content_type = cls._parse_content_type(_default_type)
         maintype = content_type.maintype
-        if maintype == 'multipart':
+        if depth >= cls._max_depth:
+            # sub-parts nested any deeper are left unparsed, every use of
+            # the structure recurses once per level
+            pass
+        elif maintype == 'multipart':
             boundary = cls._get_boundary(content_type)
             if boundary:
                 return cls._parse_multipart(
-                    data, view, lines, content_type, boundary)
+                    data, view, lines, content_type, boundary, depth)
         elif maintype == 'message' and content_type.subtype == 'rfc822':
-            return cls._parse_rfc822(data, view, lines, content_type)
+            return cls._parse_rfc822(data, view, lines, content_type, depth)
         return cls(data, lines, content_type, [])
 
     @classmethod
@@ -398,18 +407,20 @@ class MessageBody(Writeable):
 
     @classmethod
     def _parse_rfc822(cls, data: bytes, view: memoryview, lines: _Lines,
-                      content_type: ContentTypeHeader) -> MessageBody:
-        subpart = MessageContent._parse(data, view, lines)
+                      content_type: ContentTypeHeader,
+                      depth: int) -> MessageBody:
+        subpart = MessageContent._parse(data, view, lines, depth + 1)
         return cls(data, lines, content_type, [subpart])
 
     @classmethod
     def _parse_multipart(cls, data: bytes, view: memoryview, lines: _Lines,
                          content_type: ContentTypeHeader,
-                         boundary: bytes) -> MessageBody:
+                         boundary: bytes, depth: int) -> MessageBody:
         parts = cls._find_parts(data, view, lines, boundary)
         nested: list[MessageContent] = []
         for part_lines in parts:
-            sub_content = MessageContent._parse(data, view, part_lines)
+            sub_content = MessageContent._parse(
+                data, view, part_lines, depth + 1)
             nested.append(sub_content)
         return cls(data, lines, content_type, nested)
 
